@@ -21,7 +21,7 @@ import time
 
 VERIF = os.path.dirname(os.path.dirname(os.path.abspath(__file__)))
 REPO = os.environ.get('CGV_REPO', '/repo')
-SEEDED = os.path.join(VERIF, 'seeded')
+SEEDED = os.environ.get('CGV_SEEDED', os.path.join(VERIF, 'seeded'))
 ENV = dict(os.environ, PBR_VERSION='0')
 
 
